@@ -35,6 +35,7 @@ type FuncResult struct {
 	Dropped  []string
 	Kept     []string
 	PreSat   string
+	Vacuous  []string // obligations whose path condition is unsatisfiable under the hypotheses (see checkReach)
 	Seconds  float64
 	Assumed  bool
 	Callees  []string
